@@ -1,7 +1,7 @@
 """C02 - CRDT: replicas converge; batching neither loses nor reorders operations.
 
 SPEC  CrdtPinsetBatchMC  batching layer of consensus/crdt (queue, batchWorker, timer, commit failures):
-                         EffectIsPrefix, HooksCover, CommitRule, NotStranded, NoHang, NothingLost, RefuseRule
+                         EffectIsPrefix, HooksCover, CommitRule, NotStranded, NoHang, NoCrash, NothingLost, RefuseRule
                          (exhaustive); the as-coded age-failure path is shown to violate NoHang / NotStranded
                          (witness runs, not counted).
       CrdtPinsetMC       go-ds-crdt v0.1.21 set/register/delivery transcription: MembershipConvergence and
@@ -124,7 +124,7 @@ def batch_nontrivial(s):
     per = {}
     for x in nops:
         per[x["c"]] = per.get(x["c"], 0) + 1
-    return bool(any(x["k"] == "arm" for x in st) or (s["batching"] and s["maxq"] < len(nops)) or
+    return bool(any(x["k"] in ("arm", "armread") for x in st) or (s["batching"] and s["maxq"] < len(nops)) or
                 (s["batching"] and any(v >= 2 for v in per.values())))
 
 
@@ -193,6 +193,18 @@ def targeted_batch():
                                                          P("c2", "C"), {"k": "settle"}]),
         # exactly max size, then exactly max size again
         base(klass="t-size-exact", maxsize=2, steps=[P("c1", "A"), P("c2", "A"), P("c1", "B"), U("c2"), {"k": "settle"}]),
+        # the first item of a batch cannot be added (datastore read error in batchingState.Rm): the age timer is
+        # already armed and fires with nothing batched - the worker must not commit (nil delta: go-ds-crdt panics)
+        base(klass="t-itemerr-first", steps=[{"k": "armread", "n": 1}, U("c1"), {"k": "pause", "ms": 3 * a}, P("c1", "A"), P("c2", "B"),
+                                             {"k": "settle"}]),
+        base(klass="t-itemerr-after-commit", maxsize=2, steps=[P("c1", "A"), P("c2", "B"), {"k": "settle"}, {"k": "armread", "n": 1}, U("c3"),
+                                                               {"k": "pause", "ms": 3 * a}, U("c2"), {"k": "settle"}]),
+        # the same error on an unpin that matters: the acknowledged unpin is dropped by the worker
+        base(klass="t-itemerr-effective", steps=[P("c1", "A"), {"k": "settle"}, {"k": "armread", "n": 1}, U("c1"), P("c2", "B"),
+                                                 {"k": "settle"}]),
+        # read error on a direct (non-batched) unpin: reported to the caller, no effect
+        base(klass="t-direct-readfail", batching=False, maxsize=0, maxage_ms=0,
+             steps=[P("c1", "A"), {"k": "armread", "n": 1}, U("c1"), P("c2", "B"), U("c2"), {"k": "settle"}]),
         # a steady trickle slower than the age limit: every batch must still be committed by age
         base(klass="t-trickle", maxsize=30, maxq=50,
              steps=sum([[P("c1" if n % 3 else "c2", "ABC"[n % 3]), {"k": "pause", "ms": 100}] for n in range(14)], []) +
@@ -601,10 +613,11 @@ def run(ctx):
     ctx.tlc("CrdtPinsetMC.tla", "CrdtPinsetMC_quick.cfg" if quick else "CrdtPinsetMC_thorough.cfg", workers=8, timeout=3000)
     ctx.tlc("CrdtPinsetMC.tla", "CrdtPinsetMC_batch.cfg", workers=8, timeout=3000)
     ctx.exhaustive = True
-    for cfg in ("CrdtPinsetBatchMC_ascoded_hang.cfg", "CrdtPinsetBatchMC_ascoded_stranded.cfg"):
+    for cfg in ("CrdtPinsetBatchMC_ascoded_hang.cfg", "CrdtPinsetBatchMC_ascoded_stranded.cfg",
+                "CrdtPinsetBatchMC_ascoded_crash.cfg"):
         r = ctx.tlc("CrdtPinsetBatchMC.tla", cfg, count=False, expect_violation=True, workers=4, timeout=1200)
         if not r.violation:
-            raise vcheck.Infra("%s: expected the as-coded age path to violate the invariant" % cfg)
+            raise vcheck.Infra("%s: expected the as-coded (unrepaired) age path to violate the invariant" % cfg)
     net = [dict(DESIGN_NET)]
     for cfg, nrep, klass in (("CrdtPinsetMC_value.cfg", 3, "tlc-value-divergence"), ("CrdtPinsetMC_hooks.cfg", 2, "tlc-hook-missing"),
                              ("CrdtPinsetMC_batchvalue.cfg", 2, "tlc-value-divergence-batch")):
